@@ -89,18 +89,20 @@ Theorem C09_serial_is_spec : forall share ms k,
 Proof. exact serial_spec_lemma. Qed.
 Print Assumptions C09_serial_is_spec.
 
-(* Overload: excess registrations are dropped and counted; the receiver never waits for a worker. *)
+(* Overload: excess registrations are dropped and counted; the receiver never waits for a worker.
+   For every buffer capacity, 0 included (fewer than 10 workers: unbuffered channel, hand-off only to a
+   worker that is waiting, else a counted drop). *)
 Theorem C09_distributor_never_blocks : forall nw cap work p,
   preach true nw cap work p ->
   p_received p = p_enqueued p + p_dropped p + in_hand (p_d p) /\
   p_buf p <= cap /\
   (forall b w, p_d p <> DWait ->
-     (dstep true nw cap p b = None <-> dstep true nw cap (with_workers p w) b = None)) /\
+     (dstep true nw cap work p b = None <-> dstep true nw cap work (with_workers p w) b = None)) /\
   (p_cancel p = false -> p_in p > 0 -> p_d p <> DWait -> p_d p <> DDone ->
-     exists p', dstep true nw cap p false = Some p') /\
-  (p_d p = DHave -> forall b, exists p', dstep true nw cap p b = Some p' /\ p_d p' = DTop /\
-     (p_buf p <? cap = false -> p_dropped p' = S (p_dropped p) /\ p_buf p' = p_buf p) /\
-     (p_buf p <? cap = true -> p_enqueued p' = S (p_enqueued p) /\ p_buf p' = S (p_buf p))).
+     exists p', dstep true nw cap work p false = Some p') /\
+  (p_d p = DHave -> forall b, exists p', dstep true nw cap work p b = Some p' /\ p_d p' = DTop /\
+     (can_handoff nw cap p = false -> p_dropped p' = S (p_dropped p) /\ p_enqueued p' = p_enqueued p /\ p_buf p' = p_buf p) /\
+     (can_handoff nw cap p = true -> p_enqueued p' = S (p_enqueued p) /\ p_dropped p' = p_dropped p)).
 Proof. exact distributor_never_blocks_lemma. Qed.
 Print Assumptions C09_distributor_never_blocks.
 
